@@ -279,9 +279,18 @@ func VerifC06GenerateNative() {
 // verifC06Graph: a flattened graph whose index depends on the order in which the members of a
 // class are visited if that order is not the document's: an element with lexical entries in two
 // source maps (different ranges) and two source-information nodes (different root locations).
-func verifC06Graph(twoMaps, twoInfos bool) any {
+func verifC06Graph(twoMaps, twoInfos, owned bool) any {
+	n1 := verifObj("@id", "http://x/n1", "@type", []any{"http://example.org/C", "http://example.org/D"})
+	if owned {
+		// n1 refers to its source maps (sources): both hold an entry for it
+		maps := []any{verifObj("@id", "http://x/sm1")}
+		if twoMaps {
+			maps = append(maps, verifObj("@id", "http://x/sm2"))
+		}
+		n1[smNS+"sources"] = maps
+	}
 	nodes := []any{
-		verifObj("@id", "http://x/n1", "@type", []any{"http://example.org/C", "http://example.org/D"}),
+		n1,
 		verifObj("@id", "http://x/n2", "@type", "http://example.org/C"),
 		verifObj("@id", "http://x/lexA", smNS+"element", "http://x/n1", smNS+"value", "[(1,1)-(2,2)]"),
 		verifObj("@id", "http://x/lexB", smNS+"element", "http://x/n1", smNS+"value", "[(7,7)-(8,8)]"),
@@ -301,10 +310,10 @@ func verifC06Graph(twoMaps, twoInfos bool) any {
 // VerifC06Index: the input index (what the policy sees of the data) is the same for every map
 // iteration order.
 func VerifC06Index() {
-	twoMaps, twoInfos := v.Choice("twoSourceMaps", 2) == 1, v.Choice("twoSourceInfos", 2) == 1
-	i1 := Encode(Index(verifC06Graph(twoMaps, twoInfos)))
+	twoMaps, twoInfos, owned := v.Choice("twoSourceMaps", 2) == 1, v.Choice("twoSourceInfos", 2) == 1, v.Choice("mapsOwned", 2) == 1
+	i1 := Encode(Index(verifC06Graph(twoMaps, twoInfos, owned)))
 	v.MapOrder(true)
-	i2 := Encode(Index(verifC06Graph(twoMaps, twoInfos)))
+	i2 := Encode(Index(verifC06Graph(twoMaps, twoInfos, owned)))
 	v.MapOrder(false)
 	v.Reach("indexed-twice")
 	v.Assert("C06.index-equal", i1 == i2)
@@ -312,11 +321,11 @@ func VerifC06Index() {
 
 // VerifC06IndexNative: natively the order is the runtime's choice: index repeatedly and compare.
 func VerifC06IndexNative() {
-	twoMaps, twoInfos := v.ReplayInt("twoSourceMaps") == 1, v.ReplayInt("twoSourceInfos") == 1
-	first := Encode(Index(verifC06Graph(twoMaps, twoInfos)))
+	twoMaps, twoInfos, owned := v.ReplayInt("twoSourceMaps") == 1, v.ReplayInt("twoSourceInfos") == 1, v.ReplayInt("mapsOwned") == 1
+	first := Encode(Index(verifC06Graph(twoMaps, twoInfos, owned)))
 	same := true
 	for i := 0; i < 2000 && same; i++ {
-		same = Encode(Index(verifC06Graph(twoMaps, twoInfos))) == first
+		same = Encode(Index(verifC06Graph(twoMaps, twoInfos, owned))) == first
 	}
 	v.Assert("C06.index-equal", same)
 }
